@@ -6,7 +6,7 @@ import vlib
 SEM = os.path.join(vlib.VERIF, "spec", "sem")
 
 
-def run_scenarios(res, scen_list, monitor, spec_dir=SEM, tag="", timeout=1500, sub="seq", par=16, procs=1, race=False, crash_is_violation=True):
+def run_scenarios(res, scen_list, monitor, spec_dir=SEM, tag="", timeout=1500, sub="seq", par=16, procs=1, race=False, crash_is_violation=True, relayout_p=0.0):
     """scen_list: list of scenario dicts without 'tr'. Returns number of traces validated. Adds violations to res."""
     if not scen_list:
         return 0
@@ -14,9 +14,17 @@ def run_scenarios(res, scen_list, monitor, spec_dir=SEM, tag="", timeout=1500, s
     base = os.path.join(vlib.scratch(), "s%s_%d" % (tag, len(os.listdir(vlib.scratch()))))
     sp, tp = base + ".scen", base + ".trace"
     scen = {}
+    lrng = None
+    if relayout_p > 0:
+        import random, layout
+        lrng = random.Random(vlib.seed() * 7919 + len(scen_list))
     with open(sp, "w") as f:
         for i, sc in enumerate(scen_list):
             sc = dict(sc, tr=i + 1)
+            if lrng is not None and "sql" in sc and not sc.get("nolayout") and lrng.random() < relayout_p:
+                # C11: keyword case and whitespace / line breaks between tokens change nothing - every family runs part of its
+                # statements in another layout (the monitor still judges by the meta line, which describes the statement)
+                sc["sql"] = layout.relayout(sc["sql"], lrng)
             scen[i + 1] = sc
             f.write(json.dumps(sc) + "\n")
     if procs > 1:
